@@ -48,6 +48,17 @@ def recording_arrays(rng, n=None, family=None, amp=None):
 
 def make_recording(ns, ew, vt, dt, degrees_from_north=0.0, meta=None):
     import hvsrpy
+    # the documented signature is (ns, ew, vt, degrees_from_north=0., meta=None): two thirds of the recordings are built
+    # with the orientation (and the metadata) given by position, the others by keyword (decided from the first sample, so
+    # that a replayed case makes the same choice)
+    first = np.asarray(ns, dtype=float).ravel()[:1]
+    pick = int(abs(first[0]) * 1e6) % 3 if first.size and np.isfinite(first[0]) else 0
+    if pick == 1:
+        return hvsrpy.SeismicRecording3C(hvsrpy.TimeSeries(ns, dt), hvsrpy.TimeSeries(ew, dt), hvsrpy.TimeSeries(vt, dt),
+                                         degrees_from_north, meta)
+    if pick == 2:
+        return hvsrpy.SeismicRecording3C(hvsrpy.TimeSeries(ns, dt), hvsrpy.TimeSeries(ew, dt), hvsrpy.TimeSeries(vt, dt),
+                                         degrees_from_north, meta=meta)
     return hvsrpy.SeismicRecording3C(hvsrpy.TimeSeries(ns, dt), hvsrpy.TimeSeries(ew, dt),
                                      hvsrpy.TimeSeries(vt, dt), degrees_from_north=degrees_from_north, meta=meta)
 
@@ -311,10 +322,11 @@ def recreate_in_place(rng, obj):
 SCALAR_TYPES = ["float", "int", "float64", "int64", "int32", "int16", "uint8", "int8", "float32", "float16", "zero-dim-array"]
 
 
-def scalar_form(rng, v, name=None):
+def scalar_form(rng, v, name=None, allow=None):
     """The number v as another numeric type that holds it EXACTLY (else as the Python float given)."""
     v = float(v)
-    name = name or SCALAR_TYPES[int(rng.integers(0, len(SCALAR_TYPES)))]
+    types = allow or SCALAR_TYPES
+    name = name or types[int(rng.integers(0, len(types)))]
     integral = v == int(v) if np.isfinite(v) else False
     if name == "int" and integral:
         return int(v), name
